@@ -306,11 +306,13 @@ def annet_modules():
     return sorted(n for n, m in list(sys.modules.items()) if m is not None and (n == "annet" or n.startswith("annet.")))
 
 
-def global_fingerprint(extra_roots=()):
+def global_fingerprint(named_roots=()):
     """-> Session (digests: {component: digest}) over every global of every loaded annet module (sorted by module, name).
 
-    Component names are '<module>:<global>'.  Dunder globals are skipped (module metadata), everything else is walked;
-    extra_roots = [(name, obj)] are appended (objects of the harness that take part in the state, none by default)."""
+    Component names are '<module>:<global>'.  Dunder globals are skipped (module metadata), everything else is walked.
+    named_roots = ['<module>:<global>', ...] are walked right after the lru caches under the name 'root:<module>:<global>',
+    so that a change inside such an object (a connector, the vendor registry) is reported under that name and not under
+    the alphabetically first module that happens to import it."""
     s = Session()
     mods = annet_modules()
     # pass 1: every lru_cache wrapper under the name of the module that defines it ("lru:<module>.<name>"), so that the
@@ -323,6 +325,11 @@ def global_fingerprint(extra_roots=()):
             v = g[name]
             if _is_lru(v) and getattr(v, "__module__", None) == mn and id(v) not in s.owner:
                 s.component("lru:%s.%s" % (mn, getattr(v, "__qualname__", name)), v)
+    for ref in named_roots:
+        mn, _, name = ref.partition(":")
+        g = getattr(sys.modules.get(mn), "__dict__", None)
+        if isinstance(g, dict) and name in g:
+            s.component("root:" + ref, g[name])
     for mn in mods:
         m = sys.modules.get(mn)
         g = getattr(m, "__dict__", None)
@@ -335,8 +342,6 @@ def global_fingerprint(extra_roots=()):
             if isinstance(v, types.ModuleType):
                 continue
             s.component("%s:%s" % (mn, name), v)
-    for name, obj in extra_roots:
-        s.component(name, obj)
     return s
 
 
